@@ -1,5 +1,5 @@
 """C17 - parameter store / restore: exact, survives restarts and NVM faults (fault enumeration)."""
-import random
+import random, zlib
 import framework as F
 import sim as S
 import gen
@@ -64,6 +64,10 @@ class Layout:
         cfg.nvm = (self.nvmsize, self.nvminit)
         cfg.finalize()
         return cfg
+
+
+def hash_op(op):
+    return zlib.crc32(repr(op[:3]).encode())
 
 
 class PModel:
@@ -153,6 +157,8 @@ def gen_script(rng, lay):
             ops.append(("reset", rng.choice([129, 130])))
         else:
             ops.append(("restart",))
+        if rng.random() < 0.15 and ops[-1][0] in ("store", "restore"):
+            ops.append(("partial", ops[-1][0], rng.choice(lay.subs()), rng.choice(["empty", "short", "split"])))
     return ops
 
 
@@ -218,7 +224,21 @@ def execute(res, exe, lay, ops, fault, tag, sample=False):
                         verdict, want_calls = m.restore(sub)
                     else:
                         verdict = "abort"
-                code, evs = S.sdo_write(sim, lay.nid, idx, sub, sig, 4)
+                if (hash_op(op) & 3) == 0:
+                    # the same request as a segmented transfer (initiate with size 4, one last segment with the four bytes)
+                    rid = 0x600 + lay.nid
+                    evs = sim.rx(rid, bytes([0x21, idx & 0xFF, idx >> 8, sub, 4, 0, 0, 0]))
+                    r0 = [d for (t, cid, dlc, d, f) in S.txs(evs) if cid == 0x580 + lay.nid]
+                    code = int.from_bytes(r0[0][4:8], "little") if (r0 and r0[0][0] == 0x80) else None
+                    if code is None:
+                        evs2 = sim.rx(rid, bytes([0x07]) + sig.to_bytes(4, "little") + bytes(3))
+                        r1 = [d for (t, cid, dlc, d, f) in S.txs(evs2) if cid == 0x580 + lay.nid]
+                        code = int.from_bytes(r1[0][4:8], "little") if (r1 and r1[0][0] == 0x80) else (None if r1 else "no answer")
+                        evs = evs + evs2
+                    sim.cmd("geterr")       # an aborted segmented transfer leaves an SDO error code in the node: not what the following steps look for
+                    res.counters["segmented_requests"] += 1
+                else:
+                    code, evs = S.sdo_write(sim, lay.nid, idx, sub, sig, 4)
                 got_calls = [int(c[1]) for c in S.cbs(evs, "paradef")]
                 if verdict == "ok" and code is not None:
                     fail("verdict/%s-refused" % op[0], "valid %s request to sub %d answered %r" % (op[0], sub, code)); return False, m
@@ -229,6 +249,28 @@ def execute(res, exe, lay, ops, fault, tag, sample=False):
                     fail("default-callback", "COParaDefault called for groups %r, reference %r" % (got_calls, want_calls)); return False, m
                 if op[0] == "store" and verdict == "ok":
                     stores += 1
+            elif op[0] == "partial":
+                # segmented downloads that deliver less than the four signature bytes (nothing, two bytes, or two + two): they are no
+                # store / restore request whatever the transfer buffer still holds from an earlier one - no NVM access, no default callback
+                _, which, sub, variant = op
+                idx = 0x1010 if which == "store" else 0x1011
+                sb = (SAVE if which == "store" else LOAD).to_bytes(4, "little")
+                rid = 0x600 + lay.nid
+                fr = [bytes([0x21 if variant == "split" else 0x20, idx & 0xFF, idx >> 8, sub]) + ((4).to_bytes(4, "little") if variant == "split" else bytes(4))]
+                if variant == "empty":
+                    fr.append(bytes([0x0F]) + bytes(7))
+                elif variant == "short":
+                    fr.append(bytes([0x0B]) + sb[:2] + bytes(5))
+                else:
+                    fr += [bytes([0x0A]) + sb[:2] + bytes(5), bytes([0x1B]) + sb[2:] + bytes(5)]
+                for f_ in fr:
+                    evs = sim.rx(rid, f_)
+                    if [e for e in evs if e[0] == "nvm"] or S.cbs(evs, "paradef"):
+                        fail("partial-signature/%s" % variant, "segmented download (%s) of an incomplete signature to %04x:%d caused %r" % (
+                            variant, idx, sub, [e for e in evs if e[0] == "nvm" or (e[0] == "cb" and e[1] == "paradef")][:3])); return False, m
+                sim.rx(rid, bytes([0x80, idx & 0xFF, idx >> 8, sub, 0, 0, 0, 8]))
+                sim.cmd("geterr")           # the refused transfer may leave an SDO error code in the node: not what the following steps look for
+                res.counters["partial_signature_downloads"] += 1
             elif op[0] == "ramset":
                 m.ram[op[1]][:] = op[2]
                 sim.cmd("ramset %d %s" % (op[1], op[2].hex()))
